@@ -38,6 +38,7 @@ func genPipeline(r *vh.Rng) (in []int64, nontrivial bool, desc any) {
 	if len(ps) > 6 {
 		ps = ps[:6]
 	}
+	pops := genPops(r, ps)
 	nt := genNode(r, ratio)
 	acpu, amem := nt.acpu, nt.amem
 	ops := [][]int64{}
@@ -69,7 +70,7 @@ func genPipeline(r *vh.Rng) (in []int64, nontrivial bool, desc any) {
 				return l
 			}
 			lvlC, lvlM = step(lvlC), step(lvlM)
-			ops = append(ops, []int64{1, vh.B(r.Chance(1, 30)), vh.B(r.Chance(1, 30)), policy, acpu * lvlC / 100, amem / 100 * lvlM})
+			ops = append(ops, []int64{1, vh.B(r.Chance(1, 30)), vh.B(r.Chance(1, 30)), policy, acpu * lvlC / 100, amem / 100 * lvlM, genPsel(r, len(pops))})
 			samples++
 		case x < 78:
 			fail := int64(0)
@@ -121,7 +122,7 @@ func genPipeline(r *vh.Rng) (in []int64, nontrivial bool, desc any) {
 			samples = 0
 		}
 	}
-	in = cat([]int64{ratio0}, encPods(ps), nt.enc(), []int64{int64(len(ops))})
+	in = cat([]int64{ratio0}, encPops(pops), nt.enc(), []int64{int64(len(ops))})
 	for _, o := range ops {
 		in = append(in, o...)
 	}
@@ -181,7 +182,7 @@ func genThreshold(r *vh.Rng) (in []int64, nontrivial bool, desc any) {
 			return v
 		}
 		e, eM := next(cur), next(curM)
-		ops = append(ops, []int64{1, 0, 0, 1, alloc - e, alloc - eM})
+		ops = append(ops, []int64{1, 0, 0, 1, alloc - e, alloc - eM, 0})
 		ops = append(ops, []int64{2, 0})
 		// the next amount on the node is unknown to the generator when the write was skipped;
 		// aim the next event at the event just sent (equal when written, close otherwise)
